@@ -41,6 +41,10 @@ def exits(block, marker, sat=False):
     stmts = block["s"] if block.get("k") == "block" else [block]
     for st in stmts:
         k = st.get("k")
+        # `let x = match .. { .. }` / `let x = if .. { .. } else { .. }`: control flow inside an initialiser
+        if k == "local" and st.get("init") is not None and st["init"].get("k") in ("match", "if"):
+            st = st["init"]
+            k = st.get("k")
         if k == "return":
             if not _is_err_return(st):
                 # the returned expression itself may contain the marker
